@@ -342,6 +342,22 @@ func c19World(pl *C19Plan, n int, seedSalt uint64) (results []c19Result, k *Kern
 		})
 	}
 	results = make([]c19Result, n)
+	// the context of device 1's TO2 and, for site-triggered cancellation, the
+	// scheduler callback are set up before any task runs (the callback is
+	// executed by the scheduler itself, whose hand-offs the race detector does
+	// not see)
+	dev1Ctx, dev1Cancel := context.WithCancel(ctx)
+	defer dev1Cancel()
+	if cancelAfter > 0 && pl.CancelSite != "" {
+		seen := 0
+		k.OnRelease = func(task, site string) {
+			if strings.HasPrefix(site, pl.CancelSite) {
+				if seen++; seen == cancelAfter {
+					dev1Cancel()
+				}
+			}
+		}
+	}
 	var wg sync.WaitGroup
 	for i := 0; i < n; i++ {
 		i := i
@@ -376,28 +392,16 @@ func c19World(pl *C19Plan, n int, seedSalt uint64) (results []c19Result, k *Kern
 			dm := &c19Device{k: k, guid: dev.Cred.GUID, size: pl.Payload, delays: pl.Delays, r: mrand.New(mrand.NewPCG(pl.Seed, uint64(i)))}
 			ctx := ctx
 			if i == 0 && cancelAfter > 0 {
-				var cancel context.CancelFunc
-				ctx, cancel = context.WithCancel(ctx)
-				defer cancel()
-				start := k.StepCount()
-				if pl.CancelSite != "" {
-					seen := 0
-					k.OnRelease = func(task, site string) {
-						if strings.HasPrefix(site, pl.CancelSite) {
-							if seen++; seen == cancelAfter {
-								cancel()
-							}
-						}
-					}
-					defer func() { k.OnRelease = nil }()
-				} else {
+				ctx = dev1Ctx
+				if pl.CancelSite == "" {
+					start := k.StepCount()
 					k.Go("canceller", func() {
 						for k.StepCount() < start+cancelAfter {
 							if k.Yield("cancel.wait") == 0 {
 								break
 							}
 						}
-						cancel()
+						dev1Cancel()
 					})
 				}
 			}
